@@ -218,6 +218,15 @@ func register[C any](property, kind string, check func(*C) error) func(*C) error
 		}
 		return check(&c)
 	}}
+	// the same check directly after earlier calls in the same goroutine (judgeH)
+	hc := historyCheck(check)
+	kinds[kind+"@history"] = kindInfo{property: property, run: func(raw json.RawMessage) error {
+		var h hist[C]
+		if err := json.Unmarshal(raw, &h); err != nil {
+			harnessError("replay: cannot decode %s@history case: %v", kind, err)
+		}
+		return hc(&h)
+	}}
 	return check
 }
 
